@@ -153,3 +153,92 @@ func GuardCall(g Guard, names ...string) (*ssa.Call, int, bool) {
 	}
 	return nil, 0, false
 }
+
+// EnumBlockPaths enumerates the acyclic block paths from the entry of fn to every block ending
+// in a Return. It returns false if more than limit paths exist.
+func EnumBlockPaths(fn *ssa.Function, limit int, visit func(path []*ssa.BasicBlock)) bool {
+	if len(fn.Blocks) == 0 {
+		return true
+	}
+	n := 0
+	on := map[*ssa.BasicBlock]bool{}
+	var path []*ssa.BasicBlock
+	var rec func(b *ssa.BasicBlock) bool
+	rec = func(b *ssa.BasicBlock) bool {
+		if on[b] {
+			return true
+		}
+		on[b] = true
+		path = append(path, b)
+		defer func() { on[b] = false; path = path[:len(path)-1] }()
+		if len(b.Instrs) > 0 {
+			if _, ok := b.Instrs[len(b.Instrs)-1].(*ssa.Return); ok {
+				n++
+				if n > limit {
+					return false
+				}
+				visit(append([]*ssa.BasicBlock(nil), path...))
+				return true
+			}
+		}
+		for _, s := range b.Succs {
+			if !rec(s) {
+				return false
+			}
+		}
+		return true
+	}
+	return rec(fn.Blocks[0])
+}
+
+// ResolveOnPath resolves phis of v along a block path: for a phi in block path[i] the edge of
+// the predecessor path[i-1] is taken (repeatedly).
+func ResolveOnPath(v ssa.Value, path []*ssa.BasicBlock) ssa.Value {
+	for k := 0; k < 16; k++ {
+		ph, ok := v.(*ssa.Phi)
+		if !ok {
+			return v
+		}
+		idx := -1
+		for i, b := range path {
+			if b == ph.Block() {
+				idx = i
+			}
+		}
+		if idx <= 0 {
+			return v
+		}
+		found := false
+		for j, p := range ph.Block().Preds {
+			if p == path[idx-1] {
+				v = ph.Edges[j]
+				found = true
+				break
+			}
+		}
+		if !found {
+			return v
+		}
+	}
+	return v
+}
+
+// ReturnsAvoiding lists the return instructions of fn reachable from its entry without passing
+// an instruction that satisfies avoid.
+func ReturnsAvoiding(fn *ssa.Function, avoid func(ssa.Instruction) bool) []*ssa.Return {
+	var out []*ssa.Return
+	if len(fn.Blocks) == 0 {
+		return nil
+	}
+	WalkFrom(Site{fn, fn.Blocks[0], -1, nil}, func(x Site) bool {
+		if avoid(x.Instr) {
+			return false
+		}
+		if r, ok := x.Instr.(*ssa.Return); ok {
+			out = append(out, r)
+			return false
+		}
+		return true
+	})
+	return out
+}
